@@ -7,6 +7,7 @@ import (
 
 	"github.com/syndtr/goleveldb/leveldb/comparer"
 	"github.com/syndtr/goleveldb/leveldb/memdb"
+	"github.com/syndtr/goleveldb/leveldb/util"
 )
 
 // obligations of package memdb (C14): the in-memory table answers like a sorted map and reports Len / Size
@@ -96,4 +97,53 @@ func TestMemdbIsASortedMapWithHonestCounters(t *testing.T) {
 		model[k] = v
 	}
 	check("after re-insertions")
+}
+
+// obligation memdb.(*dbIter).Seek:post(C02,C14:facing-forward-after-a-forward-move)
+// An iterator that has been walked backwards and is then Seek'ed past the
+// tail of the list must sit "after the last key", exactly like a sorted map
+// cursor: Next stays exhausted, Prev steps back onto the last key.
+func TestMemdbIteratorKeepsItsDirectionAfterSeek(t *testing.T) {
+	db := memdb.New(comparer.DefaultComparer, 0)
+	for _, k := range []string{"b", "d", "f"} {
+		if err := db.Put([]byte(k), []byte("v"+k)); err != nil {
+			t.Fatal(err)
+		}
+	}
+
+	check := func(name string, slice *util.Range, seekKey, wantLast string) {
+		// Next after a Seek that ran off the tail.
+		it := db.NewIterator(slice)
+		if !it.Last() || string(it.Key()) != wantLast {
+			t.Fatalf("%s: Last() = %q, want %q", name, it.Key(), wantLast)
+		}
+		if it.Seek([]byte(seekKey)) {
+			t.Fatalf("%s: Seek(%q) = true (%q), want false", name, seekKey, it.Key())
+		}
+		if it.Next() {
+			t.Errorf("%s: Next() after Seek(%q) past the tail yielded %q, want exhausted", name, seekKey, it.Key())
+		}
+		it.Release()
+
+		// Prev after a Seek that ran off the tail.
+		it = db.NewIterator(slice)
+		if !it.Last() {
+			t.Fatalf("%s: Last() = false", name)
+		}
+		for it.Prev() { // walk backwards off the head, then come back with Seek
+		}
+		if it.Seek([]byte(seekKey)) {
+			t.Fatalf("%s: Seek(%q) = true (%q), want false", name, seekKey, it.Key())
+		}
+		if !it.Prev() {
+			t.Errorf("%s: Prev() after Seek(%q) past the tail = false, want %q", name, seekKey, wantLast)
+		} else if string(it.Key()) != wantLast {
+			t.Errorf("%s: Prev() after Seek(%q) past the tail = %q, want %q", name, seekKey, it.Key(), wantLast)
+		}
+		it.Release()
+	}
+
+	check("no range", nil, "g", "f")
+	// Range whose bounds are absent keys: [c, e) holds only "d".
+	check("range c..e", &util.Range{Start: []byte("c"), Limit: []byte("e")}, "e", "d")
 }
